@@ -22,7 +22,7 @@ func runBigCase(idx int, dir, tier string, seed int64) *caseResult {
 	}
 	defer r.close()
 	r.track = nil // the labelling tracker is not used here
-	n := 65536 + 600 + rnd.Intn(6000)
+	n := 65536 + 600 + rnd.Intn(8000)
 	hosts := 40
 	slot0 := 30 + rnd.Intn(200)
 	var batch []node.Point
@@ -51,15 +51,17 @@ func runBigCase(idx int, dir, tier string, seed int64) *caseResult {
 		return res
 	}
 	res.count("big_series_in_one_memory_database", n)
-	nq := 16
+	nq := 30
 	if tier == "thorough" {
-		nq = 60
+		nq = 100
 	}
 	queries := make([]*node.Query, nq)
 	for i := range queries {
 		queries[i] = &node.Query{Metric: "big", Items: []node.SelectItem{{Expr: node.FieldRef{Name: "f"}}},
-			Start: sc.Base, End: sc.Base + hourMs - 1000, GroupBy: []string{"uid"},
-			Cond: node.TagCmp{Key: "host", Op: "=", Values: []string{fmt.Sprintf("h%d", rnd.Intn(hosts))}}}
+			Start: sc.Base, End: sc.Base + hourMs - 1000, GroupBy: []string{"uid"}}
+		if i%10 != 9 { // every tenth query reads all series
+			queries[i].Cond = node.TagCmp{Key: "host", Op: "=", Values: []string{fmt.Sprintf("h%d", rnd.Intn(hosts))}}
+		}
 	}
 	type bad struct {
 		q     *node.Query
